@@ -49,7 +49,7 @@ PartsSmall == { <<100, 2048, 4095, 0, 2048, 4095>>, <<2048, 2048, 2048, 2048, 20
 RECURSIVE Words(_)
 Words(n) == IF n = 0 THEN {<<>>} ELSE { Append(w, x) : w \in Words(n - 1), x \in {"H1", "H2", "H3", "P1", "P2"} }
 Rec(sym) == CASE sym = "H1" -> Pack(<<4090, 48 + 3, 48 + 1000, 48, 49, 50>>)
-              [] sym = "H2" -> Pack(<<4095, 48 + 125, 48 + 700, 48 + 124, 48, 48 + 63>>)
+              [] sym = "H2" -> Pack(<<4095, 48 + 126, 48 + 700, 48 + 124, 48, 48 + 63>>)      \* an EVEN cells-per-dimension (H1: odd)
               [] sym = "H3" -> Pack(<<4080, 48 + 3, 48 + 1200, 50, 48, 49>>)      \* same cells-per-dimension as H1, other velocity scale / cell
               [] sym = "P1" -> Pack(<<100, 2048, 4095, 0, 2048, 4095>>)
               [] sym = "P2" -> Pack(<<4079, 0, 1, 2047, 2049, 4000>>)
